@@ -217,6 +217,7 @@ pub struct Env {
     pub target_dir: PathBuf,
     pub tx3c: PathBuf,
     pub harness_dir: PathBuf,
+    pub evidence_dir: PathBuf,
 }
 
 impl Env {
@@ -233,12 +234,16 @@ impl Env {
         let harness_dir = PathBuf::from(
             std::env::var("VERIF_HARNESS").unwrap_or_else(|_| format!("{}/harness", verif_dir.display())),
         );
+        let evidence_dir = PathBuf::from(
+            std::env::var("VERIF_EVIDENCE").unwrap_or_else(|_| format!("{}/evidence", verif_dir.display())),
+        );
         Env {
             verif_dir,
             repo_dir,
             target_dir,
             tx3c,
             harness_dir,
+            evidence_dir,
         }
     }
 
@@ -748,7 +753,7 @@ pub fn run_check(prop: &dyn Property, tier: Tier, seed: u64, env: &Env, replay: 
     }
     let mut violations = vec![];
     let mut known_hit = vec![];
-    let replay_dir = env.verif_dir.join("evidence").join("replays");
+    let replay_dir = env.evidence_dir.join("replays");
     let _ = std::fs::create_dir_all(&replay_dir);
     let mut lines = vec![];
     for (sig, cands) in &by_sig {
@@ -818,7 +823,7 @@ pub fn run_check(prop: &dyn Property, tier: Tier, seed: u64, env: &Env, replay: 
         "violations": violations.len(),
     });
     if replay.is_none() {
-        let evdir = env.verif_dir.join("evidence");
+        let evdir = env.evidence_dir.clone();
         let _ = std::fs::create_dir_all(&evdir);
         let _ = std::fs::write(
             evdir.join(format!("{id}.json")),
